@@ -11,10 +11,10 @@ OPEN_TEST = 'SimulatedExchange.is_open_at_datetime'
 
 
 def check(ctx):
-    s1_submit(ctx)
+    ctx.sub(s1_submit)
     upd = s2_s3_update(ctx)
-    s4_in_full(ctx)
-    s6_hours(ctx)
+    ctx.sub(s4_in_full)
+    ctx.sub(s6_hours)
 
 
 # ---------------------------------------------------------------------------------------------- S1
